@@ -734,20 +734,22 @@ func (g *GoBackNConn) receivePacketsForever() error { // nolint:gocyclo
 			// number that the receiver was expecting.
 			shouldResend, bumped := g.sendQueue.processNACK(m.Seq)
 
-			// If we don't need to resend the queue after processing
-			// the NACK, we can continue without sending the resend
-			// signal.
-			if !shouldResend {
-				continue
-			}
-
 			// If the base was bumped, then the queue is now smaller
-			// and so we can send a signal to indicate this.
+			// and so we can send a signal to indicate this. This
+			// includes the NACK for the top of the window, which
+			// acknowledges everything and needs no resend.
 			if bumped {
 				select {
 				case g.receivedACKSignal <- struct{}{}:
 				default:
 				}
+			}
+
+			// If we don't need to resend the queue after processing
+			// the NACK, we can continue without sending the resend
+			// signal.
+			if !shouldResend {
+				continue
 			}
 
 			g.log.Tracef("Sending a resend signal")
